@@ -11,26 +11,26 @@ NOTE = ("Trusted: go/ssa construction (x/tools v0.29.0), the engine's instructio
 
 # property -> (claimed?, level text, design ref)
 CLAIMED = {
- "C13": ("Interleavings are not executed. Decided instead, on every symbolic path of the encode/decode/split/batch jobs: the reduction side-conditions under which any interleaving of calls on distinct values equals a sequential run (no store to package-level state, no use of a pooled buffer after Put, disjoint write sets of the batch encoder's goroutines under every completion order), with the pooled buffer's content - the only schedule-dependent value - as a free solver variable.", "DESIGN.md 8 C13"),
+ "C13": ("Interleavings are not executed. Decided instead, on every symbolic path of the encode/decode/split/batch jobs: the reduction side-conditions under which any interleaving of calls on distinct values equals a sequential run (no store to package-level state, no use of a pooled buffer after Put, no buffer returned to the pool twice, disjoint write sets of the batch encoder's goroutines under every completion order), with the pooled buffer's content - the only schedule-dependent value - as a free solver variable.", "DESIGN.md 8 C13"),
  "C05": ("Every codec except GB18030 is executed symbolically (including the real x/text UTF-16 and Windows-1252 transformers with the tables their own initialisers build) on texts containing one symbolic scalar value ranging over all code points; 'encode fails or decode(encode(s)) == s', justified refusals, the inversion of the protocol-level content decoders and the refusal of every unsupported coding number are solver-decided.", "DESIGN.md 8 C05"),
  "C09": ("The comparator's order axioms are solver-decided over symbolic part counts and all valid codings; Build is executed for enumerated candidate lists with every map iteration order and every goroutine completion order explored as nondeterministic choices, the winner compared with an independent (parts, documented priority) minimum.", "DESIGN.md 8 C09"),
  "C06": ("The split entry points are executed symbolically on every ASCII text, every UCS-2 text of ASCII-range characters and every valid GSM 7-bit septet stream of the listed lengths (content, escape positions near the part boundaries, reference octet all symbolic); payload concatenation equals the encoded stream against a reference segmentation and a reference septet packer; fallback and reported coding for every BMP character and every invalid coding number.", "DESIGN.md 8 C06"),
  "C14": ("For every well-formed UTF-16 / unpacked GSM-7 / (restricted) GB18030 stream of the listed lengths through the generic splitter, and every valid septet stream through the packed splitter, the solver decides that no part ends inside a multi-unit character; the coding-agnostic cut is a known finding per coding.", "DESIGN.md 8 C14"),
- "C19": ("The duration is the solver's variable: ToValidatePeriod and the relative formatter are executed symbolically for every whole-second duration (and every negative one, every unparsable text via an error flag), the digits of the result are related to the duration through digit variables; the float64 accessors are handled assume-guarantee: their integer contract is proved on the real time SSA in the SMT floating-point theory (cvc5) for the representable range, and used in place of the floats elsewhere.", "DESIGN.md 8 C19"),
- "C15": ("MD5 is abstracted as an uninterpreted function with congruence (every digest value possible), the decimal timestamp rendering by digit variables; the argument the library hands to MD5 is compared with the specification's concatenation, and the encode -> decode -> peer recomputation exchange is solver-decided for all accounts, secrets (bounded length), timestamps and digests, for the CMPP 2.0/3.0 connect exchange and the SMGP 3.0 login.", "DESIGN.md 8 C15"),
- "C18": ("Receipts are assembled from ordered key selections (enumerated) with symbolic values; the real extraction functions are executed symbolically (substring search as first-match terms) and every present/absent key's result is solver-decided; the CMPP status-report body round-trips as in C01.", "DESIGN.md 8 C18"),
+ "C19": ("The duration is the solver's variable: ToValidatePeriod and the relative formatter are executed symbolically for every nanosecond count up to 2^32 seconds (and every negative one, every unparsable text via an error flag), the digits of the result are related to the duration through digit variables; the float64 accessors are handled assume-guarantee: their contract (integer part = integer quotient; q <= f < q+1; f >= q+0.5 exactly when the remainder is at least half a unit) is proved on the real time SSA in the SMT floating-point theory (cvc5) for the representable range, and used in place of the floats elsewhere.", "DESIGN.md 8 C19"),
+ "C15": ("MD5 is abstracted as an uninterpreted function with congruence (every digest value possible), the decimal timestamp rendering by digit variables; the argument the library hands to MD5 is compared with the specification's concatenation, and the encode -> decode -> peer recomputation exchange is solver-decided for all accounts, secrets (every length 0..4, and exactly 15/16/32 octets), timestamps and digests, for the CMPP 2.0/3.0 connect exchange and the SMGP 3.0 login.", "DESIGN.md 8 C15"),
+ "C18": ("Receipts are assembled from ordered key selections (enumerated) with symbolic values (arbitrary octets other than space and colon); the real extraction functions are executed symbolically (substring search as first-match terms) and every present/absent key's result is solver-decided; the CMPP status-report body round-trips as in C01.", "DESIGN.md 8 C18"),
  "C04": ("One-step relation against the framing specification from an arbitrary reader state: stream octets, cursor, number of arrived octets, read chunk sizes and the end/fault offset are solver variables; the real Decode/DecodeBlocked and io.ReadFull are executed symbolically.", "DESIGN.md 8 C04"),
  "C16": ("Set round trip for 0..3 parameters with symbolic distinct tags and values under every serialisation order (map order explored as a nondeterministic choice), agreement of the two parsers on well-formed sequences, no-fabrication against a reference walk for every short octet string, and the 16-bit size boundary jobs are all solver-decided on the real TLV/Options code.", "DESIGN.md 8 C16"),
- "C12": ("One-step induction over call histories: every PDU type is encoded with the buffer pool in an arbitrary state (stale content on Get, backing array havocked on Put) and decoded from a buffer that is then overwritten with arbitrary octets; the encoder's bytes and every decoded field must be unchanged - decided by z3 with the overwritten octets as free variables.", "DESIGN.md 8 C12"),
+ "C12": ("One-step induction over call histories: every PDU type is encoded with the buffer pool in an arbitrary state (stale content on Get, backing array havocked on Put) and decoded from a buffer that is then overwritten with arbitrary octets, another value and then the same value (changed) are encoded afterwards; the encoder's bytes and every decoded field must be unchanged - decided by z3 with the overwritten octets as free variables.", "DESIGN.md 8 C12"),
  "C11": ("Stability: every octet string of the listed lengths that a decoder accepts (all octets symbolic) is re-encoded and decoded again symbolically; success and field-wise equality are solver-decided on every accepting path. Canonical images: the symbolic PDUs of C01 are re-encoded after decoding and compared bit-for-bit.", "DESIGN.md 8 C11"),
  "C03": ("Every PDU decoder and dispatcher is executed symbolically on an input whose N octets are all symbolic (one job subsumes every truncation, every count/length substitution and every trailing garbage of that total length); panics, instruction-budget overruns (non-termination), symbolic allocation sizes above 16N+1024 and accepted-but-short inputs are solver-decided per path. Auxiliary parsers (headers, TLV/options, concatenation header, receipts, septet unpacking, text decoders, frame extractors) have their own jobs.", "DESIGN.md 8 C03"),
  "C10": ("Request/response pairing, sequence propagation (all sequence words symbolic), command-id consistency of dispatcher-decoded and generated PDUs and the unsupported-id answer (32-bit command word symbolic outside the package's table) are decided per PDU type against a command table transcribed from the specifications.", "DESIGN.md 8 C10"),
  "C01": ("For each of the 57 PDU types (+ the CMPP status-report body) a generated in-package harness builds the PDU from symbolic field values (all integer values, all text contents and lengths 0..w+1, all binary octets), runs the real IEncode and IDecode symbolically and decides field-wise equality, the length prefix and the refusal of over-long values with z3 on every path; list counts, body lengths and optional-parameter shapes are enumerated as listed in the evidence.", "DESIGN.md 8 C01"),
- "C02": ("Same symbolic PDUs as C01; the encoder's bytes are compared octet-for-octet with a reference image assembled from layout tables transcribed from the specifications (independent of the library's writer), and the reference image is decoded and compared field-wise. Includes the list counts 12/13 (and 99/255 thorough) where length arithmetic can wrap.", "DESIGN.md 8 C02"),
+ "C02": ("Same symbolic PDUs as C01; the encoder's bytes are compared octet-for-octet with a reference image assembled from layout tables transcribed from the specifications (independent of the library's writer), and the reference image is decoded and compared field-wise (the SMGP tables were checked against the text of doc/'s SMGP 3.0.3 PDF, extracted with tools/pdftext.py). Includes the list counts 12/13 (and 99/255 thorough) where length arithmetic can wrap.", "DESIGN.md 8 C02"),
  "C07": ("The concatenation-header parser is decided for every string up to 10 octets (all header octets symbolic); the generic splitter for every octet stream of the listed lengths (content and reference symbolic) against an independent oracle (sizes, header octets, minimal part count, parser inverse); the 255-part limit through the real entry points.", "DESIGN.md 8 C07"),
  "C20": ("One-step induction: every write/read primitive is executed symbolically from an arbitrary valid or errored object state with arbitrary arguments; inverse, count/length agreement and error stickiness are solver-decided per primitive. Bounded by buffer sizes listed in the evidence.", "DESIGN.md 8 C20"),
  "C08": ("Encode/Decode/validators are decided for every code point and every septet pair against an independently transcribed TS 23.038 table; Pack/Unpack and the transformers for every septet vector up to the stated length against the bit-position formula. Bounded by vector length only.", "DESIGN.md 8 C08"),
- "C17": ("All 2^64 ids and all in-range field tuples are decided by bit-vector queries over the SSA of CombineMsgID/SplitMsgID; the only bound is the machine word.", "DESIGN.md 8 C17"),
+ "C17": ("All 2^64 ids and all in-range field tuples are decided by bit-vector queries over the SSA of CombineMsgID/SplitMsgID; the decimal string form (MsgID2String, MsgIDString2Uint64) is executed with Sprintf as digit variables and a model of Sscanf for %Nd formats on digit strings, and must parse back to the same id for every non-zero id; the only bound is the machine word.", "DESIGN.md 8 C17"),
 }
 NA_REASON = "check not built yet (engine under construction); see DESIGN.md section 8"
 NA = {}
